@@ -80,6 +80,7 @@ func c06Run(t *testing.T, ops []string, o *Out) {
 			if err != nil {
 				panic(err)
 			}
+			icpt = o.Wrap(icpt) // the case's ambient: transparent neighbours around the receiver interceptor (ambient_test.go)
 			icpt.BindRTCPWriter(interceptor.RTCPWriterFunc(func(pkts []rtcp.Packet, _ interceptor.Attributes) (int, error) {
 				mu.Lock()
 				defer mu.Unlock()
@@ -94,7 +95,7 @@ func c06Run(t *testing.T, ops []string, o *Out) {
 			}))
 			rtcpIn = icpt.BindRTCPReader(interceptor.RTCPReaderFunc(func(b []byte, a interceptor.Attributes) (int, interceptor.Attributes, error) {
 				spendInside()
-				return copy(b, curRTCP), a, nil
+				return copy(b, curRTCP), o.Bottom(a), nil
 			}))
 			synctest.Wait()
 		}
@@ -178,7 +179,7 @@ func c06Run(t *testing.T, ops []string, o *Out) {
 					&interceptor.StreamInfo{SSRC: ssrc, ClockRate: uint32(atoi(m["rate"]))},
 					interceptor.RTPReaderFunc(func(b []byte, a interceptor.Attributes) (int, interceptor.Attributes, error) {
 						spendInside()
-						return copy(b, curRTP), a, nil
+						return copy(b, curRTP), o.Bottom(a), nil
 					}))
 			case name == "rtp" && need("ssrc", "seq", "ts", "dt"):
 				rd, ok := readers[uint32(atoi(m["ssrc"]))]
@@ -518,7 +519,20 @@ func c06Gen(r *Rng, tier string, idx int) Case {
 	if r.Bool() {
 		ops = append(ops, "tick")
 	}
-	return Case{Class: cl, Ops: ops}
+	return Case{Class: cl, Ops: c06Ambient(r, ops)}
+}
+
+// c06Ambient: in a third of the cases the receiver interceptor sits in a chain with transparent neighbours that see
+// the same packets (the NACK responder and the stats interceptor parse the same RTCP through the shared attribute
+// cache; rtpfb attaches attributes; the TWCC header extension interceptor ignores streams that did not negotiate it),
+// and the transport may return nil attributes.  Only receiver reports are observed, so feedback the neighbours emit
+// is invisible here.
+func c06Ambient(r *Rng, ops []string) []string {
+	if !r.Chance(1, 3) {
+		return ops
+	}
+	pick := func(xs ...string) string { return xs[r.Intn(len(xs))] }
+	return append([]string{ambOp(pick("", "resp", "stats", "resp,stats", "rtpfb", "noop"), pick("", "", "stats", "resp", "hdr"), true, false, r.Chance(1, 2), false)}, ops...)
 }
 
 // c06Skew: by how much (ns) the configured clock is ahead of the ticker's: a millisecond to decades, both signs.
